@@ -17,7 +17,7 @@ EXPLANATION = (
     "closure closes the transport (else connect() is honoured again on the same connection: second CONNECT); W6 - the "
     "loss closure writes nothing and cancels every timer that can write; W7 - every retry timer stays reachable for those "
     "cancel loops: no request leaves its window with the timer pending and no alarm field is overwritten while the old "
-    "timer is live (an orphaned retry timer re-sends its packet after the loss). Liveness of the transport object is not modelled.")
+    "timer is live (an orphaned retry timer re-sends its packet after the loss). Liveness of the transport object is not modelled. W0: every encoder produces the prescribed packet (every rule of C02), a necessary condition of a well-formed stream.")
 ASSUMPTIONS = ["a TCP transport still sends write() issued after loseConnection() until its buffer is flushed"]
 
 C2S = {pdu_class_name(n) for k, (n, d) in SPEC_TYPES.items() if d in ("c2s", "both")}
